@@ -77,9 +77,27 @@ def all_objects(ctx, extra=()):
     objs.append(("leafpoint:0", Point.list_of_leaf_points[0]))
     objs.append(("leafexpr:0", Expression.list_of_leaf_expressions[0]) if Expression.list_of_leaf_expressions else ("leafpoint:1", Point.list_of_leaf_points[-1]))
     x0 = ctx.points["x0"]
-    objs.append(("derived:sum", x0 + ctx.points["xn"]))
-    objs.append(("derived:prod", x0 * ctx.points["xn"]))
+    xn = ctx.points["xn"]
+    lp = Point.list_of_leaf_points[min(1, len(Point.list_of_leaf_points) - 1)]
+    objs.append(("derived:sum", x0 + xn))
+    objs.append(("derived:prod", x0 * xn))
     objs.append(("derived:constraint", (x0 ** 2 <= ctx.exprs["dn"])))
+    # every shape of a derived object with one, two or cancelling terms (one-term objects take shortcuts)
+    objs.append(("derived1:neg", -x0))
+    objs.append(("derived1:scaled", 0.5 * lp))
+    objs.append(("derived1:div", lp / 4))
+    objs.append(("derived1:cancel", (x0 + lp) - lp))
+    objs.append(("derived1:square", lp ** 2))
+    objs.append(("derived1:square-constraint", (x0 ** 2 <= 1)))
+    if Expression.list_of_leaf_expressions:
+        le = Expression.list_of_leaf_expressions[0]
+        objs.append(("derived1:expr-scaled", 2 * le))
+        objs.append(("derived1:expr-shift", le + 1))
+        objs.append(("derived1:expr-constraint", (le <= 1)))
+        objs.append(("derived1:expr-eq", (le == 0.5)))
+        objs.append(("derived:expr-mixed", le - x0 * lp))
+    from PEPit.psd_matrix import PSDMatrix as _PSD
+    objs.append(("derived1:psd", _PSD([[x0 ** 2, 1], [1, 2]])))
     for k, c in enumerate(pep.list_of_constraints[:2]):
         objs.append(("pepconstraint:%d" % k, c))
     f = ctx.funcs["f"]
@@ -268,16 +286,17 @@ INVALID = [
 ]
 
 
-def run_invalid(case):
+def run_invalid(case, spec=None, solver="CLARABEL"):
     name, val = case
-    ctx = models.build(HIST_MODELS["gd"])
+    ctx = models.build(spec or HIST_MODELS["gd"])
     from PEPit.primitive_steps import inexact_gradient_step, inexact_proximal_step
     from PEPit.constraint import Constraint
     try:
+        kw = {} if solver is None else {"solver": solver}
         if name == "return_primal_or_dual":
-            out = ctx.pep.solve(verbose=0, solver="CLARABEL", return_primal_or_dual=val)
+            out = ctx.pep.solve(verbose=0, return_primal_or_dual=val, **kw)
         elif name == "dimension_reduction_heuristic":
-            out = ctx.pep.solve(verbose=0, solver="CLARABEL", dimension_reduction_heuristic=val)
+            out = ctx.pep.solve(verbose=0, dimension_reduction_heuristic=val, **kw)
         elif name == "notion":
             out = inexact_gradient_step(ctx.points["x0"], ctx.funcs["f"], 1.0, 0.1, notion=val)
         elif name == "opt":
@@ -288,7 +307,23 @@ def run_invalid(case):
             out = Constraint(ctx.exprs["dn"], val)
     except Exception as e:
         return [], {"invalid:%s:raised:%s" % (name, type(e).__name__): 1}
-    return [("invalid-option-accepted:%s:%r" % (name, val), "%s=%r was accepted and returned %r" % (name, val, type(out).__name__))], {}
+    if name in ("return_primal_or_dual", "dimension_reduction_heuristic") and out is None:
+        return [], {"invalid:%s:no-value" % name: 1}     # the solver found nothing: nothing was fabricated either
+    return [("invalid-option-accepted:%s:%r" % (name, val), "%s=%r was accepted and returned %r" % (name, val, out if isinstance(out, float) else type(out).__name__))], {}
+
+
+def invalid_cases(tier):
+    """(option case, model spec or None, solver)"""
+    out = []
+    solve_opts = [c for c in INVALID if c[0] in ("return_primal_or_dual", "dimension_reduction_heuristic")]
+    other = [c for c in INVALID if c not in solve_opts]
+    out += [(c, None, "CLARABEL") for c in other]
+    specs = base_specs(tier)[::2] + [dict(cls="ConvexFunction", par=0, pattern="sf", metric="dist", init="dist", n=0)]
+    for spec in specs:
+        for solver in ("CLARABEL", None):
+            for c in solve_opts:
+                out.append((c, spec, solver))
+    return out
 
 
 # ---- interface ----------------------------------------------------------------------------------------------------
@@ -308,7 +343,9 @@ def base_specs(tier):
 
 
 def shards(tier):
-    out = [dict(kind="presolve"), dict(kind="invalid")]
+    out = [dict(kind="presolve")]
+    ni = len(invalid_cases(tier))
+    out += [dict(kind="invalid", lo=lo, hi=min(ni, lo + 40)) for lo in range(0, ni, 40)]
     fs = models.failing_specs(tier)
     for lo in range(0, len(fs), 8):
         out.append(dict(kind="failing", lo=lo, hi=min(len(fs), lo + 8)))
@@ -341,10 +378,11 @@ def run_shard(shard, tier):
             add(p, o, dict(kind="presolve", spec=spec))
         samples.append(dict(kind="presolve", spec=base_specs(tier)[1]))
     elif shard["kind"] == "invalid":
-        for c in INVALID:
-            p, o = run_invalid(c)
-            add(p, o, dict(kind="invalid", case=list(c)))
-        samples.append(dict(kind="invalid", case=list(INVALID[0])))
+        ic = invalid_cases(tier)[shard["lo"]:shard["hi"]]
+        for c, spec, solver in ic:
+            p, o = run_invalid(c, spec, solver)
+            add(p, o, dict(kind="invalid", case=list(c), spec=spec, solver=solver))
+        samples.append(dict(kind="invalid", case=list(ic[0][0]), spec=ic[0][1], solver=ic[0][2]))
     elif shard["kind"] == "failing":
         for spec in models.failing_specs(tier)[shard["lo"]:shard["hi"]]:
             for be, solver in FAIL_CONFIGS:
@@ -374,7 +412,7 @@ def replay(case):
     if k == "presolve":
         p, _ = run_presolve(case["spec"])
     elif k == "invalid":
-        p, _ = run_invalid(tuple(case["case"]))
+        p, _ = run_invalid(tuple(case["case"]), case.get("spec"), case.get("solver", "CLARABEL"))
     elif k == "failing":
         p, _ = run_failing(case["spec"], case["backend"], case["solver"])
     else:
@@ -387,7 +425,7 @@ def meta(tier):
         rule="(A) 48 base models (2 per class) unsolved: every accessor of every held / leaf / derived / class / "
              "partition object must raise ValueError; (B) all histories of <= %d operations over %s on %s, judged "
              "after the last operation against the two-state reference model; (C) %d unbounded / infeasible grammar "
-             "models x %s; (D) %d invalid option values. states = executed cases; non-trivial = history contains a solve."
+             "models x %s; (D) %d invalid option values (the two solve options on 25 models x 2 solvers). states = executed cases; non-trivial = history contains a solve."
              % (_depth(tier), OPS, ["gd", "block_lmi"] if tier == "quick" else list(HIST_MODELS),
                 len(models.failing_specs(tier)), FAIL_CONFIGS, len(INVALID)),
         bounds=dict(depth=_depth(tier), ops=OPS),
